@@ -34,7 +34,7 @@ ASSUMPTIONS = [
     "the loaded-table set at each edit is a legitimate input and is held equal in the reference replica",
     "optional native dependencies present in /venv are used as installed; their presence is not varied here",
 ]
-EXPECTED_PROBES = ["hashsweep.runs_compared", "order.pairs", "pipe.ok", "pipe.build", "pipe.merge", "pipe.instance", "pipe.fea", "pipe.subset", "pipe.ttx", "save.checked", "op.savexml", "op.failsave.compile", "op.failsave.dest", "lazy.True", "lazy.None", "lazy.False", "edit.reorder", "edit.subset", "edit.scale", "edit.instantiate"]
+EXPECTED_PROBES = ["xml.before_after_save_compared", "xml.dump_vs_reference_compared", "hashsweep.runs_compared", "order.pairs", "pipe.ok", "pipe.build", "pipe.merge", "pipe.instance", "pipe.fea", "pipe.subset", "pipe.ttx", "save.checked", "op.savexml", "op.failsave.compile", "op.failsave.dest", "lazy.True", "lazy.None", "lazy.False", "edit.reorder", "edit.subset", "edit.scale", "edit.instantiate"]
 
 TIERS = {
     "quick": {"budget_s": 170, "determinism_sample": 16, "n": {"hist": 2700, "hist_fail": 1000, "hist_ensure": 700, "second_save": 900, "clock": 400, "pipe": 500, "order": 40, "hashsweep": 16}, "minimise_s": 60, "max_minimise": 3},
@@ -199,9 +199,10 @@ def generate(ctx, batch, idx):
             "pin": r.choice(["norecalc", "sde"]),
             "sde": r.randrange(0, 4_000_000_000),
             "clock_start": r.randrange(0, 4_000_000_000),
-            "tz": r.choice([None, "UTC", "Asia/Tokyo", "America/Los_Angeles"]),
+            "tz": r.choice([None, "UTC", "JST-9", "EST5EDT", "Asia/Tokyo", "America/Los_Angeles"]),
             "lang": r.choice([None, "C", "tr_TR.UTF-8", "de_DE.ISO-8859-1"]),
             "pre_ensure": batch == "hist_ensure",
+            "xmlcheck": r.random() < 0.3,
         }
         n = r.randint(1, 12)
         ops = [_gen_op(r, batch, has_fvar) for _ in range(n)]
@@ -560,6 +561,7 @@ def run_observed(src, h, scratch, events, probes, faults):
     counter = [0]
     steps = []
     saves = []
+    xml_state = {}
     before = set(loaded_set(font))
     steps.append({"op": "open", "loaded": sorted(before)})
     aborted = None
@@ -570,10 +572,17 @@ def run_observed(src, h, scratch, events, probes, faults):
                 font = apply_edit(font, name, a)
                 probes["edit." + name] = probes.get("edit." + name, 0) + 1
             else:
+                final = name == "save" and a.get("final") and knobs.get("xmlcheck")
+                if final:
+                    xml_state["tags"] = [t for t in loaded_set(font) if t not in DERIVED_TABLES]
+                    xml_state["before"] = _dump_stable(font, xml_state["tags"])
                 res = observe(font, name, a, scratch, counter, probes, faults)
                 if name == "save":
                     saves.append((i, a, res))
                     step["out"] = prng.bdigest(res)
+                if final:
+                    xml_state["after"] = _dump_stable(font, xml_state["tags"])
+                    xml_state["full"] = _dump_all(font)
         except InjectedIOError:
             raise
         except Exception as e:  # an op the library rejects: must be rejected identically by the reference
@@ -590,7 +599,50 @@ def run_observed(src, h, scratch, events, probes, faults):
         before = now
         steps.append(step)
     events.append({"observed": steps, "clock_reads": len(clock.__dict__["reads"])})
+    run_observed.xml_state = xml_state
     return font, steps, saves, aborted, clock
+
+
+# tables whose compile recalculates or canonicalises the object in place by design (finding K2):
+# derived extents and counts
+DERIVED_TABLES = ("head", "hhea", "vhea", "hmtx", "vmtx", "maxp", "OS/2", "post", "glyf", "loca", "CFF ", "CFF2")
+
+
+def _dump_stable(font, tags):
+    """Dump of the given (loaded) tables, none of which holds recalculated data (finding K2's business)."""
+    tags = [t for t in tags if t in font]
+    if not tags:
+        return ""
+    s = io.StringIO()
+    try:
+        font.saveXML(s, tables=tags, writeVersion=False)
+    except Exception as e:
+        return "exc:" + _exc_sig(e)
+    return s.getvalue()
+
+
+_INDEX_ATTR = None
+
+
+def _unordered(xml):
+    """Compiling may sort records into their canonical order in place (name records, COLR base glyph
+    records after a glyph reorder...): the before/after comparison is therefore made on the multiset
+    of dump lines with positional index attributes removed — content, not order."""
+    global _INDEX_ATTR
+    if _INDEX_ATTR is None:
+        import re
+
+        _INDEX_ATTR = re.compile(r' index="\d+"')
+    return sorted(_INDEX_ATTR.sub("", ln.strip()) for ln in xml.splitlines() if ln.strip())
+
+
+def _dump_all(font):
+    s = io.StringIO()
+    try:
+        font.saveXML(s, writeVersion=False)
+    except Exception as e:
+        return "exc:" + _exc_sig(e)
+    return s.getvalue()
 
 
 def observe(font, name, a, scratch, counter, probes, faults):
@@ -678,7 +730,7 @@ def observe(font, name, a, scratch, counter, probes, faults):
     raise ValueError(name)
 
 
-def run_reference(src, h, steps, upto, save_params, scratch, then_observe=None):
+def run_reference(src, h, steps, upto, save_params, scratch, then_observe=None, want_dump=False):
     """Fresh lazy=False replica: replays ops[0:upto] with every OBSERVE replaced by
     'load the tables the observed replica newly loaded' and every EDIT unchanged,
     then saves once with save_params. Frozen clock, plain environment."""
@@ -721,9 +773,12 @@ def run_reference(src, h, steps, upto, save_params, scratch, then_observe=None):
         except Exception as e:
             return "exc:" + _exc_sig(e)
     try:
-        return _do_save(font, dict(save_params, dest="bytesio"), scratch, [1000])
+        out = _do_save(font, dict(save_params, dest="bytesio"), scratch, [1000])
     except Exception as e:
         return "exc:" + _exc_sig(e)
+    if want_dump:
+        run_reference.dump = _dump_all(font)
+    return out
 
 
 def diff_tables(a, b):
@@ -820,9 +875,12 @@ def exec_order(ctx, h):
     import sys
     from sim import VERIF
 
-    def fresh(keys, hashseed="0"):
+    def fresh(keys, hashseed="0", tz=None):
         spec = ",".join("%s:%d" % (b, i) for b, i in keys)
         env = dict(os.environ, PYTHONHASHSEED=str(hashseed))
+        if tz:
+            # the second replica also lives in another time zone and locale
+            env.update(TZ=tz, LANG="tr_TR.UTF-8", LC_ALL="C")
         cmd = [sys.executable, os.path.join(VERIF, "check"), ID, "--run-many", spec, "--seed", str(ctx.seed), "--tier", ctx.tier]
         cp = subprocess.run(cmd, capture_output=True, text=True, env=env, timeout=RUN_TIMEOUT_S - 20)
         out = {}
@@ -834,13 +892,13 @@ def exec_order(ctx, h):
 
     t = tuple(h["target"])
     alone, cp1 = fresh([t])
-    other, cp3 = fresh([t], hashseed=h.get("hashseed", 12345))
+    other, cp3 = fresh([t], hashseed=h.get("hashseed", 12345), tz="JST-9")
     after, cp2 = fresh([tuple(k) for k in h["ops"]] + [t])
     res = {"events": [alone.get(t), other.get(t), after.get(t)], "probes": {"order.pairs": 1, "order.target." + t[0]: 1}, "states": [], "known": [], "nontrivial": True}
     if t in alone and t in other and alone[t] != other[t]:
         res["violation"] = {
-            "class": "output-depends-on-hash-seed",
-            "detail": "run %s:%d gives digest %s under PYTHONHASHSEED=0 but %s under PYTHONHASHSEED=%s (each alone in a fresh interpreter)" % (t[0], t[1], str(alone[t])[:12], str(other[t])[:12], h.get("hashseed")),
+            "class": "output-depends-on-hash-seed-or-environment",
+            "detail": "run %s:%d gives digest %s under PYTHONHASHSEED=0 but %s under PYTHONHASHSEED=%s, TZ=JST-9 (each alone in a fresh interpreter)" % (t[0], t[1], str(alone[t])[:12], str(other[t])[:12], h.get("hashseed")),
             "sig": {},
         }
         return res
@@ -904,11 +962,36 @@ def exec_hist(ctx, h, src, scratch):
                     "sig": _signature(h, i, [], steps),
                 }
             break
+    xml_state = getattr(run_observed, "xml_state", {})
+    if xml_state.get("before") is not None and xml_state.get("after") is not None and _unordered(xml_state["before"]) != _unordered(xml_state["after"]) and not res.get("violation"):
+        import difflib
+
+        dl = [ln for ln in difflib.unified_diff(xml_state["before"].splitlines(), xml_state["after"].splitlines(), lineterm="", n=0) if ln[:1] in "+-" and ln[:3] not in ("+++", "---")]
+        res["violation"] = {
+            "class": "save-changes-object-model",
+            "detail": "the dump of tables holding no recalculated data differs before and after a save of the same object: %s font=%s lazy=%s" % (dl[:4], h["font"], h["knobs"].get("lazy")),
+            "sig": _signature(h, len(h["ops"]), [], steps),
+        }
+    if xml_state.get("before") is not None:
+        probes["xml.before_after_save_compared"] = 1
     for i, params, out in sorted(picks, key=lambda s: s[0]):
         if aborted is not None and i > aborted:
             continue
+        want_dump = bool(params.get("final") and xml_state.get("full") is not None)
         with world.isolated():
-            ref = run_reference(src, h, steps, i, params, scratch)
+            ref = run_reference(src, h, steps, i, params, scratch, want_dump=want_dump)
+        if want_dump and ref == out and not res.get("violation"):
+            probes["xml.dump_vs_reference_compared"] = 1
+            rd = getattr(run_reference, "dump", None)
+            if rd is not None and rd != xml_state["full"]:
+                import difflib
+
+                dl = [ln for ln in difflib.unified_diff(rd.splitlines(), xml_state["full"].splitlines(), lineterm="", n=0) if ln[:1] in "+-" and ln[:3] not in ("+++", "---")]
+                res["violation"] = {
+                    "class": "dump-depends-on-environment-or-history",
+                    "detail": "both replicas save identical bytes but their TTX dumps differ (observed: lazy=%s tz=%s lang=%s): %s font=%s" % (h["knobs"].get("lazy"), h["knobs"].get("tz"), h["knobs"].get("lang"), dl[:4], h["font"]),
+                    "sig": _signature(h, i, [], steps),
+                }
         probes["save.checked"] = probes.get("save.checked", 0) + 1
         same = ref == out
         events.append({"save": i, "observed": out if isinstance(out, str) else prng.bdigest(out), "reference": ref if isinstance(ref, str) else prng.bdigest(ref)})
